@@ -153,6 +153,12 @@ func HarnessC15Command() {
 	ackErrors := vrt.Bool("AckCommandHandlingErrors")
 	hfail := vrt.Bool("handler.fails")
 	p := CommandProcessor{config: CommandProcessorConfig{Marshaler: m, AckCommandHandlingErrors: ackErrors, Logger: watermill.NopLogger{}}}
+	if vrt.Bool("OnHandle.set") {
+		// the hook as its documentation shows it: the handler is called with the message's context
+		p.config.OnHandle = func(params CommandProcessorOnHandleParams) error {
+			return params.Handler.Handle(params.Message.Context(), params.Command)
+		}
+	}
 	var h CommandHandler = c15CmdHandlerA{log: log, id: 1, fail: hfail}
 	if vrt.Bool("generic") {
 		h = NewCommandHandler("hA1", func(ctx context.Context, c *c15A) error {
